@@ -5,6 +5,7 @@ PROPERTY_META = {}
 
 
 def L(name, crate, file, props, tier="quick", variant=None, timeout=300, mem_gb=12, expect="pass", heavy=False, **kw):
+    timeout = max(timeout, 800)  # a slow box must not turn a passing lemma into a timeout; the whole quick check is budgeted separately
     d = dict(name=name, crate=crate, file=file, props=list(props), tier=tier, variant=dict(variant or {}), timeout=timeout,
              mem_gb=mem_gb, expect=expect, heavy=heavy)
     d.update(kw)
@@ -17,10 +18,39 @@ def lemmas_for(prop, tier):
     for l in LEMMAS:
         if prop != "ALL" and prop not in l["props"]:
             continue
-        if tier == "quick" and l["tier"] != "quick":
+        if tier == "quick" and (l["tier"] != "quick" or l["name"] in DEMOTED or l["name"] in QUICK_EXCLUDE.get(prop, ())):
             continue
         out.append(l)
     return out
+
+
+# The quick tier must finish well inside 15 minutes per property on a loaded 16-core box (measured: wall ~ 0.4 x the
+# sum of the per-harness times under -j 12).  Lemmas that need more than ~250 s or 12 GB each run in the thorough tier
+# only (DEMOTED); a lemma shared by several properties stays in the quick tier of the properties it is central to and
+# is left to the thorough tier of the others (QUICK_EXCLUDE).
+DEMOTED = {
+    "ack_cap_64",            # 64-range instance: > 900 s
+    "rs_size_small_n3",      # > 20 GB
+    "rt_renet_small_unrel_1",  # 580 s
+    "enc_len_payload_b", "enc_len_payload_c",  # 170-190 s each, same shape as enc_len_payload_a
+    "ur_discard_n2",         # 300 s (ur_discard_n1 stays)
+    "rr_recv_ord_m2",        # 185 s (rr_recv_ord_m1 stays)
+}
+QUICK_EXCLUDE = {
+    "C01": {"rr_slice_ord_other", "sc_step_3600_1", "sc_step_1201_0d"},
+    "C02": {"rr_slice_unord_other", "sc_step_3600_1", "sc_step_1201_0d", "rr_msg_unord_m1"},
+    "C03": {"rr_slice_ord_i1", "rr_slice_unord_i0_done", "ur_slice_other", "ur_slice_oob", "ur_slice_i0"},
+    "C06": {"rr_slice_unord_other", "rr_slice_ord_other", "ur_slice_other", "rr_slice_unord_i0_done", "rr_slice_ord_i0_done", "ur_slice_i0_done",
+            "ur_slice_i0", "rr_msg_unord_m1", "rr_msg_ord_m1", "rr_slice_ord_oob"},
+    "C09": {"rr_slice_ord_i1", "rr_slice_ord_other", "ur_slice_other", "rr_slice_unord_i0_done", "ur_slice_i1", "ur_slice_oob", "ur_slice_i0",
+            "rr_msg_unord_m1", "rr_recv_ord_m1"},
+    "C17": {"dec_witness", "srv_disconnect_01", "enc_len_challenge", "enc_len_response", "enc_len_payload_max0", "enc_len_payload_max8"},
+    "C19": {"dec_witness", "enc_len_payload_max0", "enc_len_payload_max8", "enc_len_payload_over"},
+    "C13": {"enc_len_response"},
+    "C07": {"dec_witness"},
+    "C04": {"ns_frame_connected_10_k0_req"},
+    "C10": {"ns_frame_connected_10_k0_req", "srv_disconnect_01"},
+}
 
 
 # --------------------------------------------------------------------------------------------
@@ -39,7 +69,10 @@ L("rp_witness", props=["C04", "C07"], expect="fail", functions="-", claim="vacui
 # --------------------------------------------------------------------------------------------
 # renetcode: packet decode / encode  (C04, C07, C13, C16, C17, C19)
 PK = dict(crate="renetcode", file="packet.rs", variant={"fs": 512}, mem_gb=18, stubs="chacha20poly1305 primitive -> models/chacha.rs (identity cipher, recorded calls)")
-L("dec_total", props=["C07", "C19"], functions="Packet::decode, read_sequence, decode_prefix, Packet::read, crypto::dencrypted_in_place, ReplayProtection::*",
+L("dec_total_64", props=["C07", "C19"], functions="Packet::decode, read_sequence, decode_prefix, Packet::read, crypto::dencrypted_in_place, ReplayProtection::*",
+  claim="decode returns normally for every datagram of at most 64 bytes (header, sequence and tag-length arithmetic); no handshake packet is ever parsed from them",
+  bound="all datagrams of every length 0..=64 (all bytes symbolic), AEAD verdict nondeterministic, with / without key and window", **PK)
+L("dec_total", props=["C07", "C19"], tier="thorough", timeout=1200, functions="Packet::decode, read_sequence, decode_prefix, Packet::read, crypto::dencrypted_in_place, ReplayProtection::*",
   claim="decode returns normally for every datagram; request only from >=1078 B, response only from >=325 B",
   bound="all datagrams of every length 0..=1400 (all bytes symbolic), AEAD verdict nondeterministic", **PK)
 L("dec_binding", props=["C04", "C17"], functions="Packet::decode, crypto::dencrypted_in_place, get_additional_data",
@@ -226,12 +259,13 @@ for nm in ("rt_renet_small_rel_1", "rt_renet_small_rel_2", "rt_renet_small_rel_e
       claim="from_bytes(to_bytes(p)) == p, the whole serialization is consumed, and its length equals the wire-format formula" +
             (" (an ack packet denotes exactly its set of sequences)" if "ack" in nm else ""),
       bound="all field magnitudes < 2^62 across the 1/2/4/8-byte varint classes; message/payload lengths and range count fixed per instance (<= 3 bytes, <= 3 ranges)", **RP)
-for nm, tier in (("parse_total_t0", "thorough"), ("parse_total_t1", "quick"), ("parse_total_t2", "thorough"), ("parse_total_t3", "thorough"), ("parse_total_t4", "quick"),
-                 ("parse_total_other", "quick"), ("parse_total_t0_12", "thorough"), ("parse_total_t2_12", "thorough"), ("parse_total_t4_12", "thorough")):
-    L(nm, props=["C06"], variant=VV, tier=tier, timeout=1800 if "12" in nm else 1000, mem_gb=16,
+# With a harness-chosen type byte CBMC still explores all five parser arms (the byte is read back through a pointer copy and is not
+# constant-propagated), so one harness over a fully symbolic first byte costs the same as each per-type instance: > 16 GB / 10-30 min.
+for nm, nb in (("parse_total_8", 8), ("parse_total_12", 12)):
+    L(nm, props=["C06"], variant=VV, tier="thorough", timeout=3000, mem_gb=30, heavy=True,
       functions="Packet::from_bytes",
-      claim="the parser returns normally on every byte string and every Ok value satisfies V (slice count 1..=10^6, reliable slice payload 1..=1200, ack ranges non-empty/ascending/separated)",
-      bound="all byte strings of length <= %s with the given first byte" % ("12" if "12" in nm else "8"), **RP)
+      claim="the parser returns normally on every byte string and every Ok value satisfies V (slice count 1..=10^6, reliable slice payload 1..=1200, ack ranges non-empty/ascending/separated); an unknown type byte is an error",
+      bound="all byte strings of length <= %d (every first byte)" % nb, **RP)
 for nm in ("rt_renet_rev_t0", "rt_renet_rev_t2", "rt_renet_rev_t4"):
     L(nm, props=["C16"], variant=VV, tier="thorough", timeout=1800, mem_gb=16, functions="Packet::from_bytes, Packet::to_bytes",
       claim="a byte string that decodes re-encodes to bytes that decode to the same value", bound="all byte strings <= 8 B of packet type %s" % nm[-1], **RP)
@@ -312,6 +346,62 @@ L("srv_req_unauth", props=["C05", "C07", "C19"], timeout=600, mem_gb=16, functio
 #   srv_update_client, srv_update_unknown, srv_payload_route, srv_frame_unknown, srv_frame_connected, srv_frame_connected_req, srv_surface_*
 L("srv_witness", props=["C05", "C10", "C17", "C19", "C07"], expect="fail", functions="-", claim="vacuity witness", **NS)
 
+# --------------------------------------------------------------------------------------------
+# renetcode: server STEP lemmas in the contract variant (C04, C05, C07, C10, C13, C17, C18, C19)
+#   * server.rs's calls to Packet::{decode, encode, generate_challenge}, ChallengeToken::decode, PrivateConnectToken::decode go to
+#     contract functions (harness/renetcode/{packet,token}.rs) that implement what dec_* / enc_len_* / rt_nc_* / rt_challenge_token
+#     prove about the real callees at the real sizes, plus ideal AEAD (models/netcode_contracts.rs);
+#   * size constants shrunk (user data 8 B, private token 32 B, challenge token 32 B, packet 128 B, payload 64 B, window 4, 2 slots):
+#     server.rs is parametric in them; their real relations are the SMT side conditions and the real-size packet lemmas.
+NSC = dict(crate="renetcode", file="server.rs",
+           variant={"fs": 512, "max_clients": 2, "cap": 2, "replay_window": 4, "contracts": True,
+                    "consts": {"NETCODE_USER_DATA_BYTES": 8, "NETCODE_CONNECT_TOKEN_PRIVATE_BYTES": 32, "NETCODE_CHALLENGE_TOKEN_BYTES": 32,
+                               "NETCODE_MAX_PACKET_BYTES": 128, "NETCODE_MAX_PAYLOAD_BYTES": 64}},
+           stubs="contract functions for Packet::decode / encode / generate_challenge, ChallengeToken::decode, PrivateConnectToken::decode (ideal AEAD; "
+                 "contracts = the packet lemmas dec_total, dec_binding, dec_window_order, enc_len_*, rt_nc_*, rt_challenge_token)")
+_NSB = "2 client slots (occupancy %s fixed), <= 1 pending session, ids / addresses / keys / clocks (whole seconds) / counters symbolic; size constants shrunk (see variant)"
+for nm, tier in (("ns_frame_connected_01_k1", "quick"), ("ns_frame_connected_11_k0", "thorough"), ("ns_frame_connected_11_k1", "thorough"), ("ns_frame_connected_10_k0_req", "quick")):
+    L(nm, props=["C07", "C18", "C04", "C10"], tier=tier, timeout=900, mem_gb=14,
+      functions="NetcodeServer::process_packet_internal (connected branch), find_client_mut_by_addr, ReplayProtection::*",
+      claim="one datagram from a connected client's address, ANY bytes, authentic or not (symbolic): a payload / disconnect surfaces only from an authentic fresh packet of that kind sealed under THIS "
+            "session's receive key and is attributed to this slot's id; the slot is cleared exactly on disconnect, no other slot changes; nothing is sealed or replied; a datagram that does not "
+            "authenticate (forged, other key, other protocol, wrong kind, replayed, or an unauthenticated connection request) leaves timeout clock, confirmed flag, window and counters unchanged",
+      bound=_NSB % nm.split("_")[3] + ("; datagram of request size (type-0 datagrams parse)" if nm.endswith("req") else "; datagram of 40 B"), **NSC)
+for nm, tier in (("ns_update_client_11_k0", "thorough"), ("ns_update_client_11_k1", "quick"), ("ns_update_client_01_k1", "thorough")):
+    L(nm, props=["C18", "C17", "C10"], tier=tier, timeout=900, mem_gb=14, functions="NetcodeServer::update_client",
+      claim="a connected client is dropped iff timeout > 0 and last authentic packet + timeout < now (reported once with its id / address, slot cleared, disconnect sealed under (send key, sequence)); "
+            "otherwise a keep-alive is sealed under (send key, sequence) iff the send timer elapsed and the sequence advances exactly once; the receive clock and the other slot are untouched",
+      bound=_NSB % nm.split("_")[3], **NSC)
+L("ns_unknown_id", props=["C10", "C12"], timeout=900, mem_gb=14, functions="NetcodeServer::{update_client, disconnect, generate_payload_packet, is_client_connected, client_addr, user_data}",
+  claim="for an id that is not connected nothing is reported, sealed or changed (no disconnect without a connect)", bound=_NSB % "10", **NSC)
+for nm, tier in (("ns_payload_route_11_k0", "thorough"), ("ns_payload_route_11_k1", "quick"), ("ns_payload_route_max", "thorough"), ("ns_payload_route_over", "quick")):
+    L(nm, props=["C17", "C10", "C13"], tier=tier, timeout=900, mem_gb=14, functions="NetcodeServer::generate_payload_packet",
+      claim="a payload is sealed under the (send key, sequence) of the session whose id matches and addressed to that session's address, the sequence then advances by one, the datagram fits the "
+            "packet limit; a payload above the payload limit is refused and seals nothing", bound=_NSB % nm.split("_")[3] + "; payload 8 B / limit / limit + 1", **NSC)
+L("ns_update_pending", props=["C18"], timeout=900, mem_gb=14, functions="NetcodeServer::update",
+  claim="a pending session is dropped exactly when the clock passes its connect token's expiry; connected clients are untouched", bound=_NSB % "10", **NSC)
+L("ns_frame_unknown", props=["C07", "C19", "C05"], timeout=900, mem_gb=14, functions="NetcodeServer::process_packet_internal (new-address branch)",
+  claim="a datagram shorter than a connection request from an address that is neither connected nor pending is an error: no reply, no state change, whatever it claims to be",
+  bound=_NSB % "10" + "; all datagrams of 0..=40 B", **NSC)
+for nm in ("ns_req_guard_00_e0", "ns_req_guard_10_e1", "ns_req_guard_11_e0", "ns_req_guard_10_e0_pend"):
+    L(nm, props=["C05", "C19", "C17", "C10", "C18"], tier="thorough", timeout=2400, mem_gb=20,
+      functions="NetcodeServer::{process_packet_internal, handle_connection_request, find_or_add_connect_token_entry}",
+      claim="a connection request (all fields attacker chosen) is answered only if version / protocol id match, the clock is before the expiry it announces, its private token is authentic under "
+            "the server's key for exactly this protocol id / expiry / xnonce / ciphertext, a listed host is this server (secure mode), neither id nor address is connected and the token is not "
+            "bound to another address; the reply goes to the source, is smaller than the request, is sealed under (token's s2c key, server-wide sequence) which then advances; challenge iff a "
+            "slot is free (fresh challenge sequence, seals this token's id + user data under the challenge key, pending session = the token's id / keys / timeout / user data, an existing pending "
+            "session is kept), denied otherwise (no pending session left); no reply => no counter, pending or token-table change; unauthentic token => token table untouched; a valid request is answered",
+      bound=_NSB % nm.split("_")[3] + "; token table with %s entry; secure flag and max_clients in {1,2} symbolic" % ("1" if "e1" in nm else "0"), **NSC)
+for nm in ("ns_resp_guard_00", "ns_resp_guard_10", "ns_resp_guard_01", "ns_resp_guard_11"):
+    L(nm, props=["C05", "C10", "C17", "C19", "C18"], tier="thorough", timeout=2400, mem_gb=20,
+      functions="NetcodeServer::process_packet_internal (pending branch)",
+      claim="one datagram from a pending address (authentic or not, echoing ANY challenge): the client connects only by an authentic response of THIS session that echoes a challenge this server "
+            "sealed for THIS session's id and user data, at the pending address, under the pending id, into a free slot, with no duplicate id; the first keep-alive is sealed under the session's "
+            "(send key, sequence) and the sequence advances; a denied reply only when no slot is free, sealed with the server-wide sequence which then advances; otherwise the connection table is "
+            "unchanged; a valid response connects when a slot is free",
+      bound=_NSB % nm[-2:], **NSC)
+L("ns_witness", props=["C04", "C05", "C07", "C10", "C13", "C17", "C18", "C19"], expect="fail", functions="-", claim="vacuity witness (contract variant)", **NSC)
+
 
 # --------------------------------------------------------------------------------------------
 # constant arithmetic (C13, C19): z3 + cvc5 over constants re-extracted from the sources
@@ -326,27 +416,29 @@ _COMMON = ("one-step lemmas over symbolic inputs and symbolic pre-states (induct
            "model containers with <= 2-3 live entries per map (occupancy fixed per harness instance), LenBytes/VecBytes models of bytes::Bytes, ids/sequences < 2^62, "
            "whole-second clocks; see DESIGN.md section A for what is outside each claim")
 _NC = ("chacha20poly1305 primitive replaced by a recording identity cipher / ideal AEAD (crypto.rs itself is real); tamper-evidence of the primitive is trusted; "
-       "datagram buffers 64..1400 B as stated per harness; server table shrunk to 2 slots (NETCODE_MAX_CLIENTS literal rewritten)")
+       "datagram buffers 64..1400 B as stated per harness; packet / window / client lemmas at the real sizes; netcode SERVER step lemmas (ns_*) in the contract "
+       "variant: server.rs real, its calls into packet.rs / token.rs replaced by contract functions justified by the packet lemmas, size constants shrunk, 2 slots")
 for _p, _txt, _out in (
         ("C01", _COMMON, "RenetClient-level glue (sent_packets, dispatch), more than 3 slices per message, liveness composition"),
         ("C02", _COMMON, "as C01"),
-        ("C03", _COMMON, "dispatch to the right channel inside RenetClient::process_packet; wire form of > 2 small messages only via sizes (rs_size_small_n3)"),
-        ("C04", _NC, "server-side attribution lemma (srv_surface_*) pruned; key secrecy; the primitive"),
-        ("C05", _NC, "request path on an AUTHENTIC token (expiry / host list), response path (srv_resp_guard_* pruned), token parsing"),
-        ("C06", _COMMON, "parser inputs > 8 B in the quick tier (12 B thorough); RenetClient::process_packet dispatch glue; server other-connection frame for packets"),
-        ("C07", _NC, "token parsing (pruned), server frame conditions (pruned), client frame conditions are thorough-only"),
+        ("C03", _COMMON, "dispatch to the right channel inside RenetClient::process_packet; wire form of > 2 small messages only via sizes (rs_size_small_n3, thorough)"),
+        ("C04", _NC, "key secrecy; the primitive; server attribution is decided in the contract variant (ns_frame_connected_*)"),
+        ("C05", _NC, "connect-token parsing / layout (token lemmas pruned; the repo's own token tests cover it); request and response paths are decided in the contract variant "
+                     "(ns_req_guard_*, ns_resp_guard_*: thorough tier, 14-16 min each)"),
+        ("C06", _COMMON, "the parser lemma (parse_total_*) needs > 16 GB / 10-30 min and is thorough-only; RenetClient::process_packet dispatch glue; server other-connection frame for packets"),
+        ("C07", _NC, "token parsing (pruned); the full-size decode totality lemma dec_total is thorough-only (quick: datagrams <= 64 B); client frame conditions are thorough-only"),
         ("C08", _COMMON, "sent_packets bookkeeping and ack dispatch inside RenetClient (ack_release / sp_step / ack_emit not built); acks assumed unforgeable"),
         ("C09", _COMMON, "SLICE_SIZE literal rewritten to 8 for receive-side slice lemmas; drain composition on paper"),
-        ("C10", _NC, "only disconnect(id) is decided (request / response / timeout paths pruned)"),
+        ("C10", _NC, "the table lemmas run on 2 slots; set_max_clients (F12) has no lemma"),
         ("C11", _COMMON, "only disconnect and the broadcast lemmas (send / receive / packet frame lemmas exceed memory)"),
         ("C12", _COMMON, "remove_connection / local-client events and process_packet on a disconnected client not decided (exceed memory)"),
         ("C13", _COMMON + "; " + _NC, "RenetClient serialization loop; wire form of >= 3 small messages by content"),
         ("C14", _COMMON, "budget threading ACROSS channels in RenetClient::get_packets_to_send (per-channel only)"),
         ("C15", _COMMON, "sent_packets 3 s horizon (sp_horizon not built)"),
         ("C16", _COMMON + "; " + _NC, "connect tokens (pruned); renet round trips and reverse round trips are thorough-only; real cipher round trip"),
-        ("C17", _NC, "bit flips through the real Poly1305 (trusted primitive); server step lemmas other than init / disconnect"),
-        ("C18", _NC, "server-side timeouts and handshake progress (pruned); temporal composition on paper"),
-        ("C19", _NC, "request path on an authentic token; response path"),
+        ("C17", _NC, "bit flips through the real Poly1305 (trusted primitive)"),
+        ("C18", _NC, "temporal composition of the progress lemmas on paper; set_max_clients (F12)"),
+        ("C19", _NC, "reply sizes at the real constants come from enc_len_* and the SMT side condition; the request / response step lemmas run at shrunk sizes"),
 ):
     PROPERTY_META[_p] = {"level_note": "trusted: rustc/Kani translation, CBMC 6.11 + cadical, z3/cvc5 for constant arithmetic; " + _txt + ". OUTSIDE the claim: " + _out,
                          "bounds": _txt, "outside": _out,
